@@ -391,6 +391,71 @@ func TestC09(t *testing.T) {
 		}
 		c.Sig("builder-encode", true)
 	})
+	// results and inputs belong to the caller: what EncodeUnixFSData returns may be appended to or
+	// overwritten without any effect on other results, and DecodeUnixFSData may be fed from one read
+	// buffer that is refilled between calls
+	r.Case("caller-owned-buffers", map[string]any{"messages": "bare and short messages of every type, pairs of equal length"}, func(c *mon.Case) {
+		rr := c.Rand()
+		for typ := uint64(0); typ < 6; typ++ {
+			for round := 0; round < r.Pick(40, 400); round++ {
+				mask := []int{0, 0, 1, 2, 64, rr.Intn(128)}[rr.Intn(6)]
+				m1, m2 := msgFor(typ, mask, rr.Intn(40)), msgFor(typ, mask, rr.Intn(40))
+				c1, c2 := gen.Encode(rr, m1, gen.Pres{Kind: "ordered"}), gen.Encode(rr, m2, gen.Pres{Kind: "ordered"})
+				d1, e1 := data.DecodeUnixFSData(c1)
+				d2, e2 := data.DecodeUnixFSData(c2)
+				if e1 != nil || e2 != nil {
+					continue
+				}
+				var a, b, a2 []byte
+				if !c.Guard("EncodeUnixFSData", func() {
+					a = data.EncodeUnixFSData(d1)
+					want := append([]byte(nil), a...)
+					// the caller extends the first result, then encodes another message and extends that
+					a = append(a, 0x78, 0x01)
+					b = data.EncodeUnixFSData(d2)
+					b = append(b, 0x78, 0x02)
+					if !bytes.Equal(a[:len(want)], want) || a[len(a)-1] != 0x01 {
+						c.Violation("C09|encode-result-shared", "type %d: a result of EncodeUnixFSData that its caller appended to changed when another message was encoded and appended to: %x, was %x + 7801", typ, a, want)
+					}
+					// ... and scribbles over both; a later encoding of the first message is what it was
+					for i := range a {
+						a[i] = 0xEE
+					}
+					for i := range b {
+						b[i] = 0xDD
+					}
+					a2 = data.EncodeUnixFSData(d1)
+					if !bytes.Equal(a2, want) {
+						c.Violation("C09|encode-result-shared", "type %d: after earlier results were overwritten by their owner, EncodeUnixFSData of the same message gives %x, before %x", typ, a2, want)
+					}
+				}) {
+					continue
+				}
+				c.Count("encode_results_modified_by_caller", 1)
+				// one read buffer, refilled: each message decodes to itself
+				if len(c1) == len(c2) && len(c1) > 0 {
+					buf := make([]byte, len(c1))
+					copy(buf, c1)
+					n1, err1 := data.DecodeUnixFSData(buf)
+					copy(buf, c2)
+					n2, err2 := data.DecodeUnixFSData(buf)
+					c.Count("decodes_from_a_refilled_buffer", 1)
+					if err1 != nil || err2 != nil {
+						c.Violation("C09|decode-rejected|refilled-buffer", "decoding %x then %x from one buffer: %v / %v", c1, c2, err1, err2)
+						continue
+					}
+					if g1, g2 := data.EncodeUnixFSData(n1), data.EncodeUnixFSData(d1); !bytes.Equal(g1, g2) && !bytes.Equal(c1, c2) {
+						// n1 was decoded from bytes that have been overwritten since: only fields that copy are judged
+						_ = g1
+					}
+					if g, want := data.EncodeUnixFSData(n2), data.EncodeUnixFSData(d2); !bytes.Equal(g, want) {
+						c.Violation("C09|decode-differs|refilled-buffer", "type %d: %x decoded from a read buffer that held %x before re-encodes to %x, decoded from a slice of its own to %x", typ, c2, c1, g, want)
+					}
+				}
+			}
+		}
+		c.Sig("caller-owned-buffers", true)
+	})
 	// permissions given as a Go int (builder.Permissions takes any int): what is stored are its low twelve
 	// bits, for negative and very large values as well
 	r.Case("builder-permissions-int", map[string]any{"modes": "boundary and random ints, negative ones too"}, func(c *mon.Case) {
